@@ -20,7 +20,8 @@ VARIANTS = [
     "TCP connect of the login connection refused",
     "token profile changed after construction",
     "server closes right after reply/pong; send-error fault for early closers",
-    "known-but-unsupported version names"
+    "known-but-unsupported version names",
+    "wall clock stepped backwards/forwards between two readings"
 ]
 RUNS = {'quick': 6000, 'thorough': 250000}
 WALL_CAP = {'quick': 200, 'thorough': 3300}
@@ -39,6 +40,19 @@ def tables():
 
 
 def scenario_for(seed, index, tier):
+    sc = _scenario_for(seed, index, tier)
+    rng = make_rng('clock', ID, seed, index)
+    if rng.random() < 0.3:
+        # clock fault: the wall clock is stepped (NTP, administrator) just
+        # before one of the first readings anybody takes of it; monotonic
+        # clocks are unaffected.  Reported latencies stay non-negative.
+        sc['wall_jumps'] = [[rng.randrange(3),
+                             rng.choice([-5000000, -3600 * 10**6, -20000,
+                                         5000000])]]
+    return sc
+
+
+def _scenario_for(seed, index, tier):
     rng = make_rng('scenario', ID, seed, index)
     sup_all, names, known, idx = tables()
     usable = common.supported()
